@@ -14,4 +14,7 @@ var c17Broken = []string{
 	"{% import 'macros' %}", "{% import 'macros' as %}", "{% from 'macros' import m as %}", "{% from 'macros' m %}",
 	"{% use %}", "{% use 'base2' with a %}", "{% use 'base2' with a as %}", "{% filter %}x{% endfilter %}", "{% filter up| %}x{% endfilter %}", "{% filter up %}x", "{% do %}", "{% verbatim %}x",
 	"{# x", "{% endif %}", "{% endfor %}", "{% else %}", "{% endblock %}", "{{ a }", "{% if a }}x{% endif %}", "{{ a %}", "{% if a %}x{% endfor %}", "{% for v in arr %}x{% endif %}",
+	// a misspelt or unknown tag directly inside a body that an end tag closes
+	"{% block t %}Hello{% endblok %} world", "{% if a %}a{% else %}b{% endfi %}", "{% macro m() %}M{% endmarco %}x", "{% filter up %}x{% endfilt %}", "{% block t %}x{% nosuch %}{% endblock %}",
+	"{% if a %}y{% elseif a %}z{% bogus %}{% endif %}", "{% for i in arr %}{% else %}e{% endfro %}", "{% set c %}x{% endest %}", "{% embed 'base2' %}{% block a %}x{% endblok %}{% endembed %}",
 }
